@@ -91,6 +91,14 @@ Shape(t, cnt, idx, leaf) ==
 
 PropAllows(p) == p.index < p.total /\ Shape(p.root, p.total, p.index, p.arg)
 
+\* The left/right turns from the root down to `index` in a tree of `total` leaves (split-point rule).
+\* Two (index, total) pairs consume the same aunts in the same way exactly when their turns agree.
+RECURSIVE PathDirs(_, _)
+PathDirs(index, total) ==
+    IF total <= 1 THEN <<>>
+    ELSE LET k == Split(total) IN
+         IF index < k THEN <<0>> \o PathDirs(index, k) ELSE <<1>> \o PathDirs(index - k, total - k)
+
 (* ---- cases ---- *)
 Honest(n, i) == [n |-> n, i |-> i, fam |-> "none", sub |-> "none", k |-> 0,
                  index |-> i, total |-> n, leaf |-> L(i), arg |-> L(i),
@@ -144,7 +152,10 @@ Next == UNCHANGED c
 
 (* ---- verdicts demanded by the property ---- *)
 \* sentence 1: "accepted only if ..." - soundness only
-V1(p) == IF PropAllows(p) THEN "E" ELSE "R"
+\* plus: the unmutated honest proof of every (total, index), powers of two or not, verifies
+V1(p) == IF p.fam = "none" THEN "A" ELSE IF PropAllows(p) THEN "E" ELSE "R"
+\* claimed (index, total) walks the tree with the same turns as the honest (i, n)
+SamePath(p) == p.index < p.total /\ PathDirs(p.index, p.total) = PathDirs(p.i, p.n)
 \* sentence 2 (proofs over a DAH): honest verifies; altered root / leaf / inner node fails
 \* (the proven root = the leaf argument; an inner node = an aunt; the proof's own copy of the leaf
 \* hash and the root argument are not in the statement's list: sentence 1 decides those)
@@ -158,6 +169,13 @@ Complete == c.fam = "none" => ModelAccepts(c) /\ PropAllows(c)
 Sound == DesignAccepts(c) => PropAllows(c)
 \* sentence 2 on the model: every alteration of leaf / aunts / root is rejected
 AlteredRejected == Altered(c) => ~ModelAccepts(c)
+\* aunts, leaf and root unchanged: the split-point algorithm accepts a claimed (index, total) exactly when
+\* it walks the same turns as the honest pair - in particular never with another number of aunts
+AcceptIffSamePath == c.fam = "index_total" => (ModelAccepts(c) <=> SamePath(c))
+\* ... and the statement allows none of them: another total is not the count of the committed tree,
+\* another index is not the position of the leaf
+TotalAndIndexBound == c.fam = "index_total" => ~PropAllows(c)
+HonestDepth == c.fam = "none" => Len(c.aunts) = Len(PathDirs(c.i, c.n))
 \* a verdict never contradicts itself
 VerdictsConsistent == ~(V2(c) = "A" /\ V1(c) = "R")
 =============================================================================
